@@ -34,9 +34,22 @@ OUTextDemands(e) ==
     <<"C17.recv",          ~e.ok => e.after = e.pre>>
   >>
 
+\* Ver.Compare consults the ComparePreRelease variable exactly when the cores are equal, and then
+\* returns what it returns; with the default in place again the order is the section-11 order
+VOf(x) == [major |-> x.major, minor |-> x.minor, patch |-> x.patch, pre |-> x.pre, build |-> x.build]
+CmpOvrDemands(e) ==
+  LET a == VOf(e.a)  b == VOf(e.b)
+      same == SameCore(a, b) IN
+  <<
+    <<"X.ovr_compare_used",  e.calls = (IF same THEN 1 ELSE 0)>>,
+    <<"X.ovr_compare_value", e.res = (IF same THEN e.stub ELSE VerCmp11(a, b))>>,
+    <<"C06.restored",        ~VerDeparture(a, b) => e.plain = VerCmp11(a, b)>>
+  >>
+
 OverrideStep(e) ==
-  CASE e.op = "ovr.set" -> OverrideSet(e.pkg, e.fmt, e.parse) /\ Note(<<>>)
+  CASE e.op = "ovr.cmp" -> UNCHANGED ovars /\ Note(CmpOvrDemands(e))
+    [] e.op = "ovr.set" -> OverrideSet(e.pkg, e.fmt, e.parse) /\ Note(<<>>)
     [] e.op = "ovr.obs" -> UNCHANGED ovars /\ Note(ObsDemands(e))
     [] e.op = "ovr.utext" -> UNCHANGED ovars /\ Note(OUTextDemands(e))
-IsOverrideOp(e) == e.op \in {"ovr.set", "ovr.obs", "ovr.utext"}
+IsOverrideOp(e) == e.op \in {"ovr.set", "ovr.obs", "ovr.utext", "ovr.cmp"}
 =============================================================================
